@@ -540,6 +540,21 @@ class _LinkDomain(Domain):
         return ns
 
 
+def _call_chain(model, fi, e, names, depth=0):
+    """e is names[0](names[1](...names[-1](<anything>))), each stage
+    possibly held in a local of fi that is bound once."""
+    if not names:
+        return True
+    if isinstance(e, ast.Name) and depth < 6:
+        ds = model.local_defs(fi, e.id)
+        return len(ds) == 1 and isinstance(ds[0], ast.AST) and \
+            _call_chain(model, fi, ds[0], names, depth + 1)
+    return isinstance(e, ast.Call) and \
+        norm(e.func).split('.')[-1] == names[0].split('.')[-1] and \
+        len(e.args) >= 1 and _call_chain(model, fi, e.args[0], names[1:],
+                                         depth + 1)
+
+
 def rule_link_agreement(model):
     r = RuleResult('C20.R5', 'the request parameters the tag writes into '
                    'its links / cookie are the ones it reads back, with the '
@@ -566,8 +581,19 @@ def rule_link_agreement(model):
                             continue
                         read[key] = bool(c.args[2].value)
                         # the diff applied is the one decoded from this key
-                        src = ast.unparse(n)
-                        if f"decode_seq(md['{key}'])" not in src:
+                        dec = c.args[1]
+                        if isinstance(dec, ast.Name):
+                            ds = [d for d in model.local_defs(rfi, dec.id)
+                                  if isinstance(d, ast.AST) and any(
+                                      x is d for x in ast.walk(n))]
+                            dec = ds[0] if len(ds) == 1 else dec
+                        from_key = isinstance(dec, ast.Call) and \
+                            norm(dec.func).split('.')[-1] == 'decode_seq' \
+                            and len(dec.args) == 1 and isinstance(
+                                dec.args[0], ast.Subscript) and isinstance(
+                                dec.args[0].slice, ast.Constant) and \
+                            dec.args[0].slice.value == key
+                        if not from_key:
                             r.finding(rfi.where, f'{key}', 'the diff '
                                       'applied is not decoded from the '
                                       'parameter tested', node=n, ctx=rfi)
@@ -625,7 +651,8 @@ def rule_link_agreement(model):
            and norm(n.func) == 'encode_str']
     for n in pay:
         r.instance(wr.where, n, 'link payload')
-        if norm(n) != 'encode_str(compress(json.dumps(diff)))':
+        if not _call_chain(model, wr, n, ['encode_str', 'compress',
+                                          'dumps']):
             r.finding(wr.where, n, 'the link payload is not '
                       'encode_str(compress(json.dumps(path))), which is '
                       'what decode_seq undoes', node=n, ctx=wr)
@@ -646,8 +673,21 @@ def rule_link_agreement(model):
             r.finding(rd.where, c, f'the state is written to cookie '
                       f'{c.args[0].value!r} but read from {cr}', node=c,
                       ctx=rd)
-        if norm(c.args[1]) != 'state' or \
-                'state = encode_seq(state)' not in ast.unparse(rd.node):
+        carried = c.args[1]
+        ok_c = False
+        if isinstance(carried, ast.Call):
+            ok_c = _call_chain(model, rd, carried, ['encode_seq'])
+        elif isinstance(carried, ast.Name):
+            # the last binding of the variable before the write is the
+            # encoded state:  state = encode_seq(state)
+            binds = [x for x in own_nodes(rd.node)
+                     if isinstance(x, ast.Assign) and any(
+                         isinstance(t, ast.Name) and t.id == carried.id
+                         for t in x.targets) and x.lineno <= c.lineno]
+            binds.sort(key=lambda x: x.lineno)
+            ok_c = bool(binds) and isinstance(binds[-1].value, ast.Call) \
+                and norm(binds[-1].value.func).split('.')[-1] == 'encode_seq'
+        if not ok_c:
             r.finding(rd.where, c, 'the cookie does not carry '
                       'encode_seq(state)', node=c, ctx=rd)
     if not cw:
